@@ -773,18 +773,18 @@ namespace occa {
   }
 
   primitive primitive::rightShift(const primitive &a, const primitive &b) {
-    // The result has the type of the left operand
+    // The result has the type of the left operand, the count is only promoted
     const int retType = a.type;
     switch(retType) {
-      case primitiveType::bool_   : return primitive(a.to<bool>()     >> b.to<bool>());
-      case primitiveType::int8_   : return primitive(a.to<int8_t>()   >> b.to<int8_t>());
-      case primitiveType::uint8_  : return primitive(a.to<uint8_t>()  >> b.to<uint8_t>());
-      case primitiveType::int16_  : return primitive(a.to<int16_t>()  >> b.to<int16_t>());
-      case primitiveType::uint16_ : return primitive(a.to<uint16_t>() >> b.to<uint16_t>());
+      case primitiveType::bool_   : return primitive(a.to<bool>()     >> b.to<int32_t>());
+      case primitiveType::int8_   : return primitive(a.to<int8_t>()   >> b.to<int32_t>());
+      case primitiveType::uint8_  : return primitive(a.to<uint8_t>()  >> b.to<int32_t>());
+      case primitiveType::int16_  : return primitive(a.to<int16_t>()  >> b.to<int32_t>());
+      case primitiveType::uint16_ : return primitive(a.to<uint16_t>() >> b.to<int32_t>());
       case primitiveType::int32_  : return primitive(a.to<int32_t>()  >> b.to<int32_t>());
-      case primitiveType::uint32_ : return primitive(a.to<uint32_t>() >> b.to<uint32_t>());
-      case primitiveType::int64_  : return primitive(a.to<int64_t>()  >> b.to<int64_t>());
-      case primitiveType::uint64_ : return primitive(a.to<uint64_t>() >> b.to<uint64_t>());
+      case primitiveType::uint32_ : return primitive(a.to<uint32_t>() >> b.to<int32_t>());
+      case primitiveType::int64_  : return primitive(a.to<int64_t>()  >> b.to<int32_t>());
+      case primitiveType::uint64_ : return primitive(a.to<uint64_t>() >> b.to<int32_t>());
       case primitiveType::float_  : OCCA_FORCE_ERROR("Cannot apply operator >> to float type");   break;
       case primitiveType::double_ : OCCA_FORCE_ERROR("Cannot apply operator >> to double type");  break;
       default: ;
@@ -793,18 +793,18 @@ namespace occa {
   }
 
   primitive primitive::leftShift(const primitive &a, const primitive &b) {
-    // The result has the type of the left operand
+    // The result has the type of the left operand, the count is only promoted
     const int retType = a.type;
     switch(retType) {
-      case primitiveType::bool_   : return primitive(a.to<bool>()     << b.to<bool>());
-      case primitiveType::int8_   : return primitive(a.to<int8_t>()   << b.to<int8_t>());
-      case primitiveType::uint8_  : return primitive(a.to<uint8_t>()  << b.to<uint8_t>());
-      case primitiveType::int16_  : return primitive(a.to<int16_t>()  << b.to<int16_t>());
-      case primitiveType::uint16_ : return primitive(a.to<uint16_t>() << b.to<uint16_t>());
+      case primitiveType::bool_   : return primitive(a.to<bool>()     << b.to<int32_t>());
+      case primitiveType::int8_   : return primitive(a.to<int8_t>()   << b.to<int32_t>());
+      case primitiveType::uint8_  : return primitive(a.to<uint8_t>()  << b.to<int32_t>());
+      case primitiveType::int16_  : return primitive(a.to<int16_t>()  << b.to<int32_t>());
+      case primitiveType::uint16_ : return primitive(a.to<uint16_t>() << b.to<int32_t>());
       case primitiveType::int32_  : return primitive(a.to<int32_t>()  << b.to<int32_t>());
-      case primitiveType::uint32_ : return primitive(a.to<uint32_t>() << b.to<uint32_t>());
-      case primitiveType::int64_  : return primitive(a.to<int64_t>()  << b.to<int64_t>());
-      case primitiveType::uint64_ : return primitive(a.to<uint64_t>() << b.to<uint64_t>());
+      case primitiveType::uint32_ : return primitive(a.to<uint32_t>() << b.to<int32_t>());
+      case primitiveType::int64_  : return primitive(a.to<int64_t>()  << b.to<int32_t>());
+      case primitiveType::uint64_ : return primitive(a.to<uint64_t>() << b.to<int32_t>());
       case primitiveType::float_  : OCCA_FORCE_ERROR("Cannot apply operator << to float type");   break;
       case primitiveType::double_ : OCCA_FORCE_ERROR("Cannot apply operator << to double type");  break;
       default: ;
@@ -981,18 +981,18 @@ namespace occa {
   }
 
   primitive& primitive::rightShiftEq(primitive &a, const primitive &b) {
-    // The result has the type of the left operand
+    // The result has the type of the left operand, the count is only promoted
     const int retType = a.type;
     switch(retType) {
-      case primitiveType::bool_   : a = (a.to<bool>()     >> b.to<bool>());     break;
-      case primitiveType::int8_   : a = (a.to<int8_t>()   >> b.to<int8_t>());   break;
-      case primitiveType::uint8_  : a = (a.to<uint8_t>()  >> b.to<uint8_t>());  break;
-      case primitiveType::int16_  : a = (a.to<int16_t>()  >> b.to<int16_t>());  break;
-      case primitiveType::uint16_ : a = (a.to<uint16_t>() >> b.to<uint16_t>()); break;
+      case primitiveType::bool_   : a = (a.to<bool>()     >> b.to<int32_t>());     break;
+      case primitiveType::int8_   : a = (a.to<int8_t>()   >> b.to<int32_t>());   break;
+      case primitiveType::uint8_  : a = (a.to<uint8_t>()  >> b.to<int32_t>());  break;
+      case primitiveType::int16_  : a = (a.to<int16_t>()  >> b.to<int32_t>());  break;
+      case primitiveType::uint16_ : a = (a.to<uint16_t>() >> b.to<int32_t>()); break;
       case primitiveType::int32_  : a = (a.to<int32_t>()  >> b.to<int32_t>());  break;
-      case primitiveType::uint32_ : a = (a.to<uint32_t>() >> b.to<uint32_t>()); break;
-      case primitiveType::int64_  : a = (a.to<int64_t>()  >> b.to<int64_t>());  break;
-      case primitiveType::uint64_ : a = (a.to<uint64_t>() >> b.to<uint64_t>()); break;
+      case primitiveType::uint32_ : a = (a.to<uint32_t>() >> b.to<int32_t>()); break;
+      case primitiveType::int64_  : a = (a.to<int64_t>()  >> b.to<int32_t>());  break;
+      case primitiveType::uint64_ : a = (a.to<uint64_t>() >> b.to<int32_t>()); break;
       case primitiveType::float_  : OCCA_FORCE_ERROR("Cannot apply operator >> to float type");  break;
       case primitiveType::double_ : OCCA_FORCE_ERROR("Cannot apply operator >> to double type"); break;
       default: ;
@@ -1001,18 +1001,18 @@ namespace occa {
   }
 
   primitive& primitive::leftShiftEq(primitive &a, const primitive &b) {
-    // The result has the type of the left operand
+    // The result has the type of the left operand, the count is only promoted
     const int retType = a.type;
     switch(retType) {
-      case primitiveType::bool_   : a = (a.to<bool>()     << b.to<bool>());     break;
-      case primitiveType::int8_   : a = (a.to<int8_t>()   << b.to<int8_t>());   break;
-      case primitiveType::uint8_  : a = (a.to<uint8_t>()  << b.to<uint8_t>());  break;
-      case primitiveType::int16_  : a = (a.to<int16_t>()  << b.to<int16_t>());  break;
-      case primitiveType::uint16_ : a = (a.to<uint16_t>() << b.to<uint16_t>()); break;
+      case primitiveType::bool_   : a = (a.to<bool>()     << b.to<int32_t>());     break;
+      case primitiveType::int8_   : a = (a.to<int8_t>()   << b.to<int32_t>());   break;
+      case primitiveType::uint8_  : a = (a.to<uint8_t>()  << b.to<int32_t>());  break;
+      case primitiveType::int16_  : a = (a.to<int16_t>()  << b.to<int32_t>());  break;
+      case primitiveType::uint16_ : a = (a.to<uint16_t>() << b.to<int32_t>()); break;
       case primitiveType::int32_  : a = (a.to<int32_t>()  << b.to<int32_t>());  break;
-      case primitiveType::uint32_ : a = (a.to<uint32_t>() << b.to<uint32_t>()); break;
-      case primitiveType::int64_  : a = (a.to<int64_t>()  << b.to<int64_t>());  break;
-      case primitiveType::uint64_ : a = (a.to<uint64_t>() << b.to<uint64_t>()); break;
+      case primitiveType::uint32_ : a = (a.to<uint32_t>() << b.to<int32_t>()); break;
+      case primitiveType::int64_  : a = (a.to<int64_t>()  << b.to<int32_t>());  break;
+      case primitiveType::uint64_ : a = (a.to<uint64_t>() << b.to<int32_t>()); break;
       case primitiveType::float_  : OCCA_FORCE_ERROR("Cannot apply operator << to float type");  break;
       case primitiveType::double_ : OCCA_FORCE_ERROR("Cannot apply operator << to double type"); break;
       default: ;
